@@ -95,7 +95,7 @@ fn check_c01_case(svc: &VarlinkService, reqs: &[Req], d: usize, rep: &mut Report
 }
 
 fn c01(args: &Args) -> ! {
-    let mut rep = Report::new("C01", "every request sequence over the 60-letter alphabet RQ (15 kinds x {none,more,oneway,oneway+more}) up to the length bound x every pipelining depth 1..n through VarlinkService::handle with the tail re-fed; non-trivial = sequence x depth whose requests are all delivered (one count per distinct (sequence, depth))");
+    let mut rep = Report::new("C01", "every request sequence over the 60-letter alphabet RQ (15 kinds x {none,more,oneway,oneway+more}) up to the length bound x every pipelining depth 1..n through VarlinkService::handle with the tail re-fed; plus every kind with its three flags spelled out as false (must equal the flag-less request); non-trivial = sequence x depth whose requests are all delivered (one count per distinct (sequence, depth))");
     let (svc, _log) = new_ts();
     if let Some(case) = args.replay_case() {
         let reqs = reqs_from_json(&case["reqs"]);
@@ -119,6 +119,33 @@ fn c01(args: &Args) -> ! {
             check_c01_case(&svc, &reqs, d, &mut rep, "C01", true);
             if rep.want_sample() {
                 rep.sample(json!({"reqs": reqs_to_json(&reqs), "depth": d}));
+            }
+        }
+    }
+    // a flag spelled out as `false` is the same as an absent flag: every kind with "more", "oneway" and "upgrade" explicitly
+    // false, alone and behind / in front of an ordinary call, gives the replies of the flag-less request
+    if args.shard == 0 {
+        for (k, _) in flagless_alphabet() {
+            for with in [0usize, 1, 2] {
+                let base = Req::new(k, Flag::None, "f");
+                let mut j = base.to_json();
+                for f in ["more", "oneway", "upgrade"] {
+                    j[f] = json!(false);
+                }
+                let echo = Req::new(Kind::Echo, Flag::None, "e").bytes();
+                let mut explicit = serde_json::to_vec(&j).unwrap();
+                explicit.push(0);
+                let (a, b) = match with {
+                    0 => (explicit.clone(), base.bytes()),
+                    1 => ([echo.clone(), explicit.clone()].concat(), [echo.clone(), base.bytes()].concat()),
+                    _ => ([explicit.clone(), echo.clone()].concat(), [base.bytes(), echo.clone()].concat()),
+                };
+                rep.eval(Some(&format!("explicit-false:{:?}:{}", k, with)));
+                let ra = feed(&svc, &[a]);
+                let rb = feed(&svc, &[b]);
+                if ra.panicked.is_some() || ra.out != rb.out || ra.closed != rb.closed {
+                    rep.violation(&format!("C01/explicit-false-flags:{:?}", k), &format!("with \"more\", \"oneway\" and \"upgrade\" spelled out as false the reply stream is {} (closed {}), without them {} (closed {})", b2s(&ra.out), ra.closed, b2s(&rb.out), rb.closed), json!({"explicit_false": format!("{:?}", k), "position": with}));
+                }
             }
         }
     }
@@ -704,6 +731,42 @@ fn c03(args: &Args) -> ! {
             let mut names: Vec<&str> = POOL.iter().map(|p| p.0).collect();
             names.extend(UNREG.iter());
             names.push("org.varlink.service");
+            // a call that merely *carries* "upgrade": true to an interface that does not upgrade: answered, and the
+            // connection stays in varlink mode (the next call is routed by name)
+            for n1 in registered.clone() {
+                for n2 in &names {
+                    let m1 = format!("{}.M", n1);
+                    let m2 = format!("{}.M", n2);
+                    let case = json!({"cfg": cfg, "behind": [m1, "upgrade-flag", m2]});
+                    if let Some(c) = &replay {
+                        if c["behind"] != case["behind"] {
+                            continue;
+                        }
+                    }
+                    rep.eval(Some(&case.to_string()));
+                    seen.lock().unwrap().clear();
+                    let mut b = serde_json::to_vec(&json!({"method": m1, "upgrade": true, "parameters": {"n": 1}})).unwrap();
+                    b.push(0);
+                    b.extend(serde_json::to_vec(&json!({"method": m2, "parameters": {"n": 2}})).unwrap());
+                    b.push(0);
+                    let run = feed(&svc, &[b]);
+                    if let Some(pm) = &run.panicked {
+                        rep.violation("C03/panic", pm, case);
+                        continue;
+                    }
+                    let replies = parse_replies(&run.out).unwrap_or_default();
+                    let second_ok = if registered.contains(n2) {
+                        replies.get(1).map(|r| Pred::ok(ParamSpec::Exact(json!({"who": n2}))).matches(r)).unwrap_or(false)
+                    } else if *n2 == "org.varlink.service" {
+                        replies.get(1).map(|r| Pred::err("org.varlink.service.MethodNotFound", ParamSpec::Any).matches(r)).unwrap_or(false)
+                    } else {
+                        replies.get(1).map(|r| Pred::err("org.varlink.service.InterfaceNotFound", ParamSpec::Contains(json!({"interface": n2}))).matches(r)).unwrap_or(false)
+                    };
+                    if replies.len() != 2 || !Pred::ok(ParamSpec::Exact(json!({"who": n1}))).matches(&replies[0]) || !second_ok || run.iface.is_some() {
+                        rep.violation("C03/misrouted-behind-upgrade-flag", &format!("replies {:?}; upgraded interface reported by handle(): {:?}", replies, run.iface), case);
+                    }
+                }
+            }
             for m1 in ["Ping", "", ".", ".x", "x.", "org"] {
                 for ow in [false, true] {
                     for n2 in &names {
@@ -925,6 +988,20 @@ fn c03(args: &Args) -> ! {
         let got = replies.get(0).and_then(|r| r["parameters"]["description"].as_str()).unwrap_or("<no description>").to_string();
         if got != vts::CRLF_IDL {
             rep.violation("C03/getinterfacedescription/not-verbatim", &format!("the definition file is {:?} but GetInterfaceDescription returned {:?}", vts::CRLF_IDL, got), case);
+        }
+        // interfaces whose names merely begin like the built-in one
+        for name in ["org.varlink.services.demo", "org.varlink.servicex", "org.varlink.service.sub"] {
+            let seen2 = Arc::new(Mutex::new(Vec::new()));
+            let desc: &'static str = Box::leak(format!("interface {}\nmethod M() -> ()\n", name).into_boxed_str());
+            let name_s: &'static str = Box::leak(name.to_string().into_boxed_str());
+            let svc2 = VarlinkService::new("V", "P", "1", "u", vec![Box::new(Recording { name: name_s, desc, seen: seen2.clone() })]);
+            let case = json!({"crlf": format!("prefix-of-service:{}", name)});
+            rep.eval(Some(&case.to_string()));
+            let (run, saw) = c03_one(&svc2, &seen2, &json!({"method": format!("{}.M", name), "parameters": {"n": 1}}));
+            let replies = parse_replies(&run.out).unwrap_or_default();
+            if saw.len() != 1 || replies.len() != 1 || !Pred::ok(ParamSpec::Exact(json!({"who": name}))).matches(&replies[0]) {
+                rep.violation("C03/misrouted", &format!("a call to {}.M: recorders saw {:?}, replies {:?}", name, saw, replies), case);
+            }
         }
         let case = json!({"crlf": "routing"});
         rep.eval(Some(&case.to_string()));
